@@ -3,4 +3,4 @@
 m=$1; p=${2:-${m%%_*}}; T=/dev/shm/mut_$$; mkdir -p $T; cp -r /repo/pox /repo/ext $T/
 f=/verif/selftest/mutants/$m.diff; [ -f $f ] || f=/verif/selftest/benign/$m.diff; [ -f $f ] || f=/verif/seeded/$m/patch.diff; [ -f $f ] || f=$m
 patch -p1 -s -d $T -i $f || echo PATCHFAIL
-cd /verif; ./check $p --repo $T --no-write | grep -A3 '^VIOLATION\|ANALYSIS' | cut -c1-400; ./check $p --repo $T --no-write | tail -1; rm -rf $T
+cd /verif; ./check $p --repo $T --no-write > /tmp/mut_out.$$ 2>&1; echo "rc=$?"; cat /tmp/mut_out.$$ | grep -A3 '^VIOLATION\|ANALYSIS' | cut -c1-400; tail -1 /tmp/mut_out.$$; rm -rf $T /tmp/mut_out.$$
